@@ -691,11 +691,18 @@ def _omen_save_restore(ctx, rule):
     return c15.r2_no_generated_unemitted(ctx, rule)
 
 
+def r17_session_state_per_object(ctx, rule):
+    """What is saved and restored is the state of one session: no guesser class keeps a mutable container at class level that its
+    methods change in place (it would be shared with - and restored into - every other object of the process)."""
+    from .common import no_shared_class_state
+    no_shared_class_state(ctx, rule, ['lib_guesser/'], 12, 'the object is shared by every instance of the class: a second session / queue / generator created in the same process starts with (and keeps changing) the state of the first one')
+
+
 def rules(tier):
     return [('C08.R1', r1_uuid_gate), ('C08.R2', r2_region_agreement), ('C08.R3', r3_canonical_descent),
             ('C08.R4', r4_saved_position), ('C08.R5', r5_sav_keys), ('C08.R6', c01.r5_successor),
             ('C08.R7', c01.r4_prob_pt_coupling), ('C08.R8', c01.r1_heap_order), ('C08.R9', r9_restore_depth), ('C08.R11', r11_restore_is_verbatim),
-            ('C08.R10', _exact_float), ('C08.R12', r12_uuid_is_fresh), ('C08.R13', r13_grammar_order), ('C08.R14', _one_shot), ('C08.R15', _omn_names), ('C08.R16', _omen_save_restore)]
+            ('C08.R10', _exact_float), ('C08.R12', r12_uuid_is_fresh), ('C08.R13', r13_grammar_order), ('C08.R14', _one_shot), ('C08.R15', _omn_names), ('C08.R16', _omen_save_restore), ('C08.R17', r17_session_state_per_object)]
 
 
 META = {
